@@ -68,6 +68,11 @@ func numBuild(c *numCase) (*numParser, error) {
 	case "slice":
 		t = reflect.SliceOf(t)
 		tag = "@Num*"
+	case "slicegrp": // one capture for the whole run of elements
+		t = reflect.SliceOf(t)
+		tag = "@(Num+)"
+	case "ptrnamed":
+		t = reflect.PtrTo(namedNumTypes[c.Kind])
 	}
 	lx := numLexSingle
 	if c.Shape == "joined" {
@@ -137,7 +142,11 @@ func numRun(args []string) error {
 		firstOff := 2
 		if c.Variant == "slice" {
 			input = " 7 " + c.S
-			firstOff = 3 // the failing element is the second one
+			firstOff = 3 // each element is its own capture: the failing capture starts at the second token
+		}
+		if c.Variant == "slicegrp" {
+			input = " 7 " + c.S
+			firstOff = 1 // one capture for all elements: its first token
 		}
 		out := runGuarded(func() (res string) {
 			defer func() {
@@ -153,12 +162,7 @@ func numRun(args []string) error {
 					flags = append(flags, "NOTPARTICIPLEERROR")
 				} else {
 					pos := pe.Position()
-					if c.Variant == "slice" {
-						// the capture is the whole repetition's first token or the element: accept either captured token
-						if pos.Offset != firstOff && pos.Offset != 1 {
-							flags = append(flags, fmt.Sprintf("BADPOS:%d", pos.Offset))
-						}
-					} else if pos.Offset != firstOff || pos.Line != 1 || pos.Column != firstOff+1 {
+					if pos.Offset != firstOff || pos.Line != 1 || pos.Column != firstOff+1 {
 						flags = append(flags, fmt.Sprintf("BADPOS:%d:%d:%d", pos.Offset, pos.Line, pos.Column))
 					}
 					if pos.Filename != "n.txt" {
